@@ -56,12 +56,12 @@ def cases(draw):
     f = {}
     for k in m.keys(t):
         spec = m.specs[(t, k)]
-        f[k] = draw(st.sampled_from(["x", "x_y", "x.b", "y", "x?y", "x?task=rig", "x#1", "x y"])) if spec.free else draw(gens.concrete_value(spec, digits_dense=True))
+        f[k] = draw(st.sampled_from(["x", "x_y", "x.b", "y", "x?y", "x?task=rig", "x#1", "x y", "e\u0301", "\u00e9", "x\\y", "A\u030a"])) if spec.free else draw(gens.concrete_value(spec, digits_dense=True))
     ps = pieces(pm, t, f)
     labels = []
     rootkind = "own"
     as_path = draw(st.integers(0, 5)) == 0
-    nmut = draw(st.integers(1, 3))
+    nmut = draw(st.integers(0, 3))
     for _ in range(nmut):
         op = draw(st.sampled_from(["desync", "desync", "subst-all", "drop-comp", "dup-comp", "lit-sep", "lit-dot", "lit-folder",
                                    "unmap", "append", "trail-slash", "trail-nl", "chop", "root-other", "relative", "lead-junk", "case"]))
